@@ -19,7 +19,7 @@ LEVEL = "exploration"
 EXHAUSTIVE = True
 RULE = ("sharing patterns {shared variable, shared variable in a 2-variable query, shared sub-expression under not_, "
         "shared sub-query, independent, same query object, rule query (refinement/alternative/next_rule), domain-less "
-        "Symbol variable, shared predicate} x domains {list, one-shot generator} x schedules: sequential "
+        "Symbol variable, shared predicate, one attribute expression object in condition and operand position} x domains {list, one-shot generator} x schedules: sequential "
         "(drain / partial+abandon by close, by dropping the reference or by just never advancing it again / raise in user "
         "predicate, then evaluate again) and interleaved (random next/drain/"
         "abandon over up to 4 live iterators); thorough enumerates every interleaving of two iterators with <=7 steps "
@@ -33,10 +33,10 @@ ANCHORS = ["HashedIterable.__iter__", "ResultQuantifier.evaluate", "SymbolicExpr
            "ConclusionSelector.update_conclusion", "SymbolicExpression._is_duplicate_output_"]
 
 PATTERNS = ["shared_var", "shared_var2", "shared_sub", "shared_subquery", "independent", "same_query", "rule",
-            "domainless", "domainless_attr", "shared_pred", "shared_scalar", "shared_fn"]
+            "domainless", "domainless_attr", "shared_pred", "shared_scalar", "shared_fn", "shared_attr"]
 # a domain-less variable gets a fresh domain at every evaluate(): evaluations that share one do not interfere
 SHARING = {"shared_var", "shared_var2", "shared_sub", "shared_subquery", "same_query", "rule", "shared_pred",
-           "shared_scalar", "shared_fn"}
+           "shared_scalar", "shared_fn", "shared_attr"}
 
 
 def plan(tier):
@@ -96,7 +96,9 @@ def gen_schedule(rng, nq, sequential):
 def gen(rng, tier, ctx):
     pattern = rng.choice(PATTERNS)
     world = G.gen_world(rng, n=rng.randint(2, 6))
-    dom = list(dict.fromkeys(rng.randrange(len(world)) for _ in range(rng.randint(1, 5))))
+    dom = [rng.randrange(len(world)) for _ in range(rng.randint(1, 5))]
+    if rng.random() < 0.85:
+        dom = list(dict.fromkeys(dom))      # else the identical object may occur twice in the domain
     dom2 = list(dict.fromkeys(rng.randrange(len(world)) for _ in range(rng.randint(1, 4))))
     gctx = {"ref_ok": {}}
     atoms = [GEN.gen_atom(rng, ["x"], False, gctx) for _ in range(3)]
@@ -169,6 +171,11 @@ def build_queries(spec, m, armed):
         vals = sorted({i % 5 for i in spec["dom"]} | {0})
         n = let(int, mk(vals), name="n")
         return [an(entity(n, n < spec["t"] + 2)), an(entity(n, n >= 0, n < spec["u"] + 2))]
+    if p == "shared_attr":
+        # one attribute expression object used as a condition, as a comparator operand, and as both in one query
+        x = let(m.P, mk(items), name="x")
+        f = x.a
+        return [an(entity(x, f)), an(entity(x, f < spec["t"] + 1, f)) if spec["u"] % 2 else an(entity(x, f == 0))]
     if p == "shared_fn":
         # one symbolic-function node used as a condition in one query and as a comparator operand in the other
         x = let(m.P, mk(items), name="x")
